@@ -156,6 +156,9 @@ func (x *Exec) sortOf(t types.Type) string {
 		}
 		return "Ref"
 	case *types.Slice:
+		if x.arraySlices {
+			return x.d.ArrSliceOf(x.sortOf(t.Elem()))
+		}
 		return x.d.ListOf(x.sortOf(t.Elem()))
 	case *types.Array:
 		return x.d.ListOf(x.sortOf(t.Elem()))
@@ -190,6 +193,10 @@ func (x *Exec) sortOf(t types.Type) string {
 			return sfSort
 		case "time.Duration", "reflect.Kind":
 			return "Int"
+		case "time.Time":
+			return x.d.Uninterp("Time")
+		case "math/rand.Rand":
+			return x.d.Uninterp("Rand")
 		}
 		if so, ok := x.valueTreeSort(t); ok {
 			return so
@@ -301,6 +308,12 @@ func (x *Exec) zeroOfSort(s string, t types.Type) Term {
 		switch si.Kind {
 		case "list":
 			return Term{S: "nil_" + s, Sort: s}
+		case "arrslice":
+			ze := x.zeroOfSort(si.Elem, nil)
+			return mk(s, "(mk_%s ((as const (Array Int %s)) %s) 0)", s, si.Elem, ze.S)
+		case "array":
+			ze := x.zeroOfSort(si.Elem, nil)
+			return mk(s, "((as const %s) %s)", s, ze.S)
 		case "node":
 			return Term{S: "n_nil_" + s, Sort: s}
 		case "trace":
